@@ -605,6 +605,10 @@ func checkC09(p *Prog, rp *Report) {
 			{"String", str, "", "V: some text\n", `"some text"`},
 			{"Int", integer, "", "V: -17\n", "i-17"},
 			{"Uint", uinteger, "", "V: 17\n", "i17"},
+			{"Uint:max", uinteger, "", "V: 18446744073709551615\n", ""},
+			{"Uint:2^63", uinteger, "", "V: 9223372036854775808\n", ""},
+			{"Int:min", integer, "", "V: -9223372036854775808\n", ""},
+			{"Int:max", integer, "", "V: 9223372036854775807\n", ""},
 			{"Bool:true", boolean, "", "V: yes\n", "T"},
 			{"Bool:false", boolean, "", "V: no\n", "F"},
 			{"Slice:blank", types.NewSlice(str), "", "V: a b\n", `["a" "b"]`},
